@@ -327,6 +327,9 @@ let mon_c08_component (case : string list) (result : string) : string =
   | _ -> "BAD result format"
 
 let run_case (line : string) : string =
+  (* "na": model-free family (names with non-ASCII cased letters, judged on the trace by
+     tools/props/reglib.py project_na): the expected observation is a constant *)
+  if line = "na" then "NA ok" else
   match split_on ' ' line with
   | "simh" :: _ :: rest -> run_sim rest
   | "simdue" :: _ :: rest ->
@@ -348,6 +351,9 @@ let run_case (line : string) : string =
   | _ -> "BADCASE"
 
 let run_monitor (id : string) (case : string list) (result : string) : string =
+  if case = [ "na" ] then
+    (if result = "NA ok" then "PASS"
+     else "FAIL fail=60 (registered spelling with non-ASCII letters: probes / announcements / answers / goodbye missing) " ^ result) else
   match case with
   | "simh" :: _ :: rest -> mon_history id rest result
   | _ -> if id = "C08" then mon_c08_component case result else "BADCASE"
